@@ -1,7 +1,9 @@
 (** Property C05: everything after [--] is delivered verbatim as positional values.
     Only pinned statements; proofs live in ParseProofs/Escape.v (the loop after the escape) and, round 2,
     ParseProofs/EscapeWalk.v (the loop before the escape), EscapeStore.v (pending values -> entry),
-    EscapeTop.v (get_matches_with / do_parse / parse_top). *)
+    EscapeTop.v (get_matches_with / do_parse / parse_top) and, round 3, EscapeAny.v (every shape of positionals,
+    hyphen-accepting levels, global arguments), EscapeDdt.v (dont_delimit_trailing_values as a global setting),
+    EscapeHyphen.v (delivery with hyphen-accepting arguments), EscapeAppend.v (Append positionals with num_args(1)). *)
 From ClapModel Require Import Base.Bytes Base.Machine Base.Utf8 Lex.OsStrExtModel.
 From ClapModel Require Import Parse.Cmd Parse.Build Parse.Valid Parse.Matcher Parse.Errors Parse.Validator Parse.Parser.
 From ClapModel Require Import ParseProofs.Totality ParseProofs.Dispatch ParseProofs.Escape ParseProofs.EscapeWalk ParseProofs.EscapeStore ParseProofs.EscapeLevel ParseProofs.EscapeChain ParseProofs.EscapeDisplay ParseProofs.EscapeGlobals ParseProofs.EscapeTop ParseProofs.EscapeAny ParseProofs.EscapeDdt ParseProofs.EscapeHyphen ParseProofs.EscapeAppend.
